@@ -1,3 +1,5 @@
 import Tumfl.Props.C03
+import Tumfl.Props.Lex
 #print axioms Tumfl.Props.C03_ladder_is_climb
 #print axioms Tumfl.Inst.model_ladder_ok
+#print axioms Tumfl.Props.Lex_sound
